@@ -808,8 +808,12 @@ def check_property(prop, tier="quick", repo=None, only_unit=None, only_target=No
                 continue
             violations.append((base + ".json", status, f, label))
     # ---- report
+    printed = set()
     for k, f in known_hits:
-        print("KNOWN-FINDING: property=%s %s" % (prop, k["_line"]))
+        if k["_line"] not in printed:           # one line per listed finding, however many obligations it explains
+            printed.add(k["_line"])
+            print("KNOWN-FINDING: property=%s %s" % (prop, k["_line"][len("finding: "):]
+                                                    if k["_line"].startswith("finding: ") else k["_line"]))
     seen = set()
     for path, status, f, label in violations:
         key = label
